@@ -380,6 +380,16 @@ func (t *FnTrans) applyContract(ct *Contract, key string, callee *ssa.Function, 
 	pre := t.cur.clone()
 	env.old = pre
 	// frame
+	t.callArgRefs = nil
+	for i, a := range args {
+		if i < len(argTypes) && t.sortOf(argTypes[i]) == "Int" {
+			if _, isInt := intInfoOf(t.resolve(argTypes[i])); !isInt {
+				if s := t.termOfOpt(a); s != "" {
+					t.callArgRefs = append(t.callArgRefs, s)
+				}
+			}
+		}
+	}
 	t.applyModifies(ct, env)
 	env.st = t.cur
 	for _, g := range ct.Ghost {
@@ -537,6 +547,23 @@ func (t *FnTrans) applyModifies(ct *Contract, env *Env) {
 		}
 	}
 	env.st = saveSt
+	if ct.Opts["debts-change"] != "" {
+		// the callee returns with other notification debts than it was called with: its ensures (mydebt) say which
+		var tds []string
+		for cn := range t.compSort {
+			if strings.HasPrefix(cn, "TD.") {
+				tds = append(tds, cn)
+			}
+		}
+		sort.Strings(tds)
+		for _, cn := range tds {
+			// only the debts for the objects handed to the callee can change
+			for _, ref := range t.callArgRefs {
+				fv := t.newConst(cn+"@dv", "Int")
+				t.set(cn, app("store", t.get(cn), ref, fv))
+			}
+		}
+	}
 	if t.havocAll {
 		// modifies everything: also what has not been mentioned on this path yet
 		defer t.havocRest()
@@ -912,6 +939,9 @@ func (t *FnTrans) frameCheck() {
 	for _, c := range comps {
 		if c == "$alloc" || allowedWhole[c] {
 			continue
+		}
+		if strings.HasPrefix(c, "TD.") && t.ct.Opts["debts-change"] != "" {
+			continue // notification debts of this thread: the contract says how they change (mydebt in ensures)
 		}
 		now := t.cur.H[c]
 		was, ok := t.entry.H[c]
